@@ -22,18 +22,18 @@ ASSUMPTIONS = ["'fetch, commit or timer activity' = Fetch/ListOffsets/OffsetFetc
                "traffic of the shared client is not counted",
                "situations are classified from Consumer attributes for stratification only; verdicts use boundary "
                "observations"]
-REACH_MIN = {"stop_points": {"quick": 500, "thorough": 15000},
-             "sit_fetch_outstanding": {"quick": 60, "thorough": 1800},
-             "sit_reply_parked": {"quick": 30, "thorough": 900},
-             "sit_processor_pending": {"quick": 60, "thorough": 1800},
-             "sit_retry_timer": {"quick": 10, "thorough": 300},
-             "sit_commit_in_flight": {"quick": 30, "thorough": 900},
-             "sit_resolving": {"quick": 30, "thorough": 900},
-             "stop_from_processor": {"quick": 10, "thorough": 300},
-             "shutdowns": {"quick": 150, "thorough": 4500},
-             "restarts_checked": {"quick": 300, "thorough": 9000},
-             "shutdown_then_stop": {"quick": 100, "thorough": 3000},
-             "shutdown_commit_refused": {"quick": 100, "thorough": 3000}}
+REACH_MIN = {"stop_points": {"quick": 431, "thorough": 7522},
+             "sit_fetch_outstanding": {"quick": 60, "thorough": 1047},
+             "sit_reply_parked": {"quick": 30, "thorough": 523},
+             "sit_processor_pending": {"quick": 60, "thorough": 1047},
+             "sit_retry_timer": {"quick": 10, "thorough": 174},
+             "sit_commit_in_flight": {"quick": 30, "thorough": 523},
+             "sit_resolving": {"quick": 30, "thorough": 523},
+             "stop_from_processor": {"quick": 10, "thorough": 174},
+             "shutdowns": {"quick": 150, "thorough": 2618},
+             "restarts_checked": {"quick": 300, "thorough": 5236},
+             "shutdown_then_stop": {"quick": 100, "thorough": 1745},
+             "shutdown_commit_refused": {"quick": 100, "thorough": 1745}}
 
 FETCHISH = ("Fetch", "ListOffsets", "OffsetFetch", "OffsetCommit")
 
